@@ -213,6 +213,34 @@ def scenario_resolve(rng, n):
     return lines, dict(kind=kind, n=n, scale=scale, solves=solves)
 
 
+def scenario_recreate(rng, k):
+    """one object used twice: a chain (band hint 2) is assembled and solved, then `Create()` is called again on the same object for a k x k
+    grid problem of the same size with the hint the grid needs, a prescribed value, and a solve"""
+    n = k * k
+    lines = ["create %d 2" % n]
+    for i in range(n - 1):
+        w = rng.uniform(0.5, 2.0)
+        lines += ["addto %s %d %d" % (d2tok(w), i, i), "addto %s %d %d" % (d2tok(w), i + 1, i + 1), "addto %s %d %d" % (d2tok(-w), i, i + 1)]
+    for i in range(n):
+        lines += ["addto %s %d %d" % (d2tok(0.3), i, i), "setb %d %s" % (i, d2tok(rng.uniform(-1, 1)))]
+    lines.append("solve 0 %s %s %d" % (d2tok(PREC), d2tok(LAMBDA), 40 * n + 200))
+    lines.append("recreate %d %d" % (n, k + 1))
+    for i in range(n):
+        r_, c_ = divmod(i, k)
+        for j in ([i + 1] if c_ + 1 < k else []) + ([i + k] if r_ + 1 < k else []):
+            w = rng.uniform(0.5, 2.0)
+            lines += ["addto %s %d %d" % (d2tok(w), i, i), "addto %s %d %d" % (d2tok(w), j, j), "addto %s %d %d" % (d2tok(-w), i, j)]
+        lines += ["addto %s %d %d" % (d2tok(0.2), i, i), "setb %d %s" % (i, d2tok(rng.uniform(-1, 1)))]
+    lines.append("dump")
+    fixed = rng.sample(range(n), 2)
+    cons = [("setvalue", i, rng.uniform(-3, 3)) for i in fixed]
+    for c in cons:
+        lines.append("setvalue %d %s" % (c[1], d2tok(c[2])))
+    lines.append("dump")
+    lines.append("solve 0 %s %s %d" % (d2tok(PREC), d2tok(LAMBDA), 40 * n + 200))
+    return lines, dict(n=n, cons=cons)
+
+
 def close(a, b, scale, ulps=4, rel=1e-13):
     return ulp_diff(a, b) <= ulps or abs(a - b) <= rel * scale
 
@@ -732,6 +760,33 @@ def main(argv):
                              % ("warm" if rnd else "cold", rnd + 1, meta["scale"], n, res, errv, PREC_RESOLVE, cond),
                              dict(engine="sparse", ops=lines[:k + 1], scale=meta["scale"], residual=res, error=errv, cond=cond))
                 break
+    # ---- one object, `Create()` twice
+    for t in range(6 if ck.tier == "quick" else 40):
+        lines, meta = scenario_recreate(rng, rng.randint(3, 7))
+        rc, rm, _, (code, err) = run_both(lines, False)
+        stats["recreate"] = stats.get("recreate", 0) + 1
+        ck.case(("recreate", meta["n"], t), nontrivial=True)
+        if code != 0:
+            ck.violation("harness-abort", "sparse harness terminated abnormally (rc=%d): %s" % (code, err[-300:]), dict(engine="sparse", ops=lines))
+            continue
+        d = compare_replies(lines, rc, rm, "system")
+        if d:
+            report(lines, d, "system")
+        dumps = [k_ for k_, l in enumerate(lines) if l == "dump"]
+        _, A0, b0, _ = parse_dump(rc[dumps[0]])
+        _, A1, b1, _ = parse_dump(rc[dumps[1]])
+        srep = rc[-1].split()
+        if srep[0] == "singular":
+            continue
+        V = np.array([tok2d(t_) for t_ in srep[1:] if t_.startswith("x")])
+        if len(V) != meta["n"]:
+            V = np.array([tok2d(t_) for t_ in srep[2:]])
+        ref, cond = constrained_reference(A0, b0, meta["cons"])
+        errv = np.linalg.norm(V - ref) / max(np.linalg.norm(ref), 1e-300)
+        if not (errv <= 1e3 * PREC * max(1.0, cond)):
+            ck.violation("solve-after-recreate", "a CBigLinProb that is Create()d a second time (band hint 2, then %d) returns a vector %.3g away from the dense solve of "
+                         "the constrained system (n=%d, prescribed %s)" % (int(meta["n"] ** 0.5) + 1, errv, meta["n"], meta["cons"]),
+                         dict(engine="sparse", ops=lines, error=errv))
     complex_part(ck, build, mx, stats)
     ck.notes.update(dict(input_distribution=stats, worst_true_relative_residual=worst_res,
                          worst_distance_to_dense_constrained_solve=worst_err, precision=PREC,
